@@ -2473,7 +2473,22 @@ impl Wire for UdpNhc {
     basics!();
     fn gen<'a>(s: &'a Store, rng: &mut Rng) -> Self::Repr<'a> {
         let n = g::plen(rng, 110);
-        Framed { repr: g::udp_nhc(rng).0, payload: s.pool.take(rng, n) }
+        let mut repr = g::udp_nhc(rng).0;
+        let payload = s.pool.take(rng, n);
+        // one value in six is steered so that the UDP checksum computes to zero (which must
+        // travel as 0xffff and be accepted again): the destination port absorbs the sum
+        if rng.chance(1, 6) {
+            let partial = checksum::combine(&[
+                checksum::pseudo_header_v6(&s.v6_src, &s.v6_dst, IpProtocol::Udp, payload.len() as u32 + 8),
+                repr.0.src_port,
+                payload.len() as u16 + 8,
+                checksum::data(payload),
+            ]);
+            if !partial != 0 {
+                repr.0.dst_port = !partial;
+            }
+        }
+        Framed { repr, payload }
     }
     fn classes(_s: &Store, r: &Self::Repr<'_>) -> Vec<String> {
         let pk = |p: u16| {
@@ -2485,7 +2500,17 @@ impl Wire for UdpNhc {
                 "other"
             }
         };
-        vec![format!("udp-nhc/src={},dst={},pl={}", pk(r.repr.src_port), pk(r.repr.dst_port), plc(r.payload.len()))]
+        let zero = {
+            let sum = checksum::combine(&[
+                checksum::pseudo_header_v6(&_s.v6_src, &_s.v6_dst, IpProtocol::Udp, r.payload.len() as u32 + 8),
+                r.repr.src_port,
+                r.repr.dst_port,
+                r.payload.len() as u16 + 8,
+                checksum::data(r.payload),
+            ]);
+            sum == 0xffff
+        };
+        vec![format!("udp-nhc/src={},dst={},pl={}{}", pk(r.repr.src_port), pk(r.repr.dst_port), plc(r.payload.len()), if zero { ",checksum-computes-to-zero" } else { "" })]
     }
     fn len(_s: &Store, r: &Self::Repr<'_>) -> usize {
         r.repr.header_len() + r.payload.len()
